@@ -23,7 +23,13 @@ func (p pkgList) String() string {
 	return strings.Join(res, " ")
 }
 
-func loadImports(sys fs.FS, topPkg string, top *token) (pkgList, error) {
+func loadImports(sys fs.FS, topPkg string, top *token) (res pkgList, err error) {
+	defer func() {
+		// e.g. an import path literal the scanner accepts but strconv.Unquote rejects
+		if r := recover(); r != nil {
+			res, err = nil, fmt.Errorf("%v", r)
+		}
+	}()
 	packages := map[string]*token{}
 	deps := map[string]map[string]bool{}
 	todo := []string{topPkg}
@@ -62,7 +68,6 @@ func loadImports(sys fs.FS, topPkg string, top *token) (pkgList, error) {
 	}
 	keys := maps.Keys(packages)
 	slices.Sort(keys)
-	var res []*token
 	for len(packages) > 0 {
 		var pkg string
 		found := false
